@@ -2,8 +2,11 @@
 //!   stunharness gen  <family> <seed> <count> <tier> [part parts]    case lines (no observation)
 //!   stunharness exec                                    stdin case lines -> `line => observation`
 //!   stunharness run  <family> <seed> <count> <tier>     gen | exec
+mod fam_attr;
+mod fam_msg;
 mod fam_mtype;
 mod fam_tcp;
+mod typed;
 mod util;
 
 use std::io::{BufRead, Write};
@@ -16,6 +19,8 @@ fn exec_line(lhs: &str) -> String {
         match fam {
             "tcp" => fam_tcp::exec(&kv),
             "mtype" => fam_mtype::exec(&kv),
+            "attr" => fam_attr::exec(&kv),
+            "msg" => fam_msg::exec(&kv),
             _ => format!("unknown-family {fam}"),
         }
     });
@@ -31,6 +36,8 @@ fn gen(fam: &str, seed: u64, count: usize, thorough: bool, part: u64, parts: u64
     match fam {
         "tcp" => fam_tcp::gen(&mut rng, count, thorough, &mut out),
         "mtype" => fam_mtype::gen(&mut rng, count, thorough, &mut out, part, parts),
+        "attr" => fam_attr::gen(&mut rng, count, thorough, &mut out, part, parts),
+        f if f.starts_with("msg.") => fam_msg::gen(f, &mut rng, count, thorough, &mut out, part, parts),
         _ => panic!("unknown family {fam}"),
     }
     out
